@@ -70,7 +70,7 @@ def run_dsop(w, s):
     if what == "take":
         idx = dec_index(s["idx"])
         sel = {dim: idx}
-        if s.get("dim2") and s["dim2"] in m.dims:
+        if s.get("dim2") and s["dim2"] in m.dims and s["dim2"] in m.used():   # like dim: used by at least one variable
             sel[s["dim2"]] = dec_index(s["idx2"])
         form = s["form"]
         if form == "axis":
